@@ -179,6 +179,8 @@ func c02Pool() (full, reduced []poolItem) {
 	add(false, "-2.5", "-2.5")
 	add(false, "1e18", "1e18")
 	add(false, "2^53r", "9007199254740992.0")
+	add(false, "2^63r", "9223372036854775808.0")
+	add(false, "-2^63r", "-9223372036854775808.0")
 	add(true, "true", "true")
 	add(false, "false", "false")
 	add(true, "/A", "/A")
@@ -320,6 +322,14 @@ var c02Pinned = []string{
 	"9007199254740993 9007199254740992 eq",
 	"9223372036854775807 9223372036854775806 ne",
 	"9007199254740993 9007199254740992.0 eq",
+	"-9223372036854775808 9223372036854775807 1 add eq",
+	"9223372036854775807 9223372036854775807 1 add eq",
+	"9223372036854775807 1 add -9223372036854775808 ne",
+	"-9223372036854775808 -9223372036854775808 -1 add eq",
+	"/a [1 2 3 4 5] def a 1 a 0 4 getinterval putinterval a",
+	"/a [1 2 3 4 5] def a 0 a 1 4 getinterval putinterval a",
+	"/s (abcde) def s 1 s 0 4 getinterval putinterval s",
+	"/a [1 2 3 4 5] def a 1 4 getinterval a 0 4 getinterval copy pop a",
 	"/a [1 2 3 4 5] def a 1 3 getinterval 0 99 put a",
 	"/a [1 2 3 4 5] def a 1 3 getinterval 1 2 getinterval 0 77 put a",
 	"/s (abcdef) def s 2 3 getinterval 0 65 put s",
